@@ -20,7 +20,9 @@
 (*   v     left-hand variable ("" when there is none)                                  *)
 (*   r     right-hand-side id = the right-hand side written without white space        *)
 (*   cc    class of the trailing comment: none | plain | eq ('=' inside) | hash ('#'   *)
-(*         inside) | digits | exo (contains the word 'exogenous')                      *)
+(*         inside) | digits | exo (contains the word 'exogenous') | sepeq | sepic |    *)
+(*         sepexo | sepplain (a non-'\n' line-separator character, then text; see      *)
+(*         SepClasses)                                                                 *)
 (*   sp    spacing around '=' and the operators: tight | one | wide                    *)
 (* Spacing and comment text are spelled out by the replay driver (harness/checks/      *)
 (* c14.py); the abstract effect of a line does not depend on them - that is the        *)
@@ -47,7 +49,14 @@ CONSTANTS
 
 Kinds == {"eq", "lag1", "lag2", "lag3", "ic", "maxtime", "errtol", "usert",
           "marker", "comment", "blank", "noeq", "multieq"}
-CommentClasses == {"none", "plain", "eq", "hash", "digits", "exo"}
+(* sep*: the free text holds a character that some line-splitting routines take for a line  *)
+(* end although it is not '\n' (form feed, vertical tab, FS/GS/RS, NEL, U+2028, U+2029, a bare *)
+(* CR - the driver goes through all of them), followed by equation-like (sepeq), initial-      *)
+(* condition-like (sepic), marker-like (sepexo) or plain (sepplain) text.  For the equation    *)
+(* block such a comment / description is one line of free text like any other.                *)
+SepClasses == {"sepeq", "sepic", "sepexo", "sepplain"}
+BaseClasses == {"none", "plain", "eq", "hash", "digits", "exo"}
+CommentClasses == BaseClasses \cup SepClasses
 Spacings == {"tight", "one", "wide"}
 
 OneEq     == {"eq", "lag1", "lag2", "lag3", "ic", "maxtime", "errtol", "usert"}   \* well-formed
@@ -60,7 +69,7 @@ IsForm(f) ==
     /\ f.kind \in Kinds /\ f.cc \in CommentClasses /\ f.sp \in Spacings
     /\ f.kind \in {"marker", "blank"} => f.cc = "none"
     \* comment-only lines that merely mention the marker word are not generated
-    /\ f.kind = "comment" => f.cc \notin {"none", "exo"}
+    /\ f.kind = "comment" => f.cc \notin {"none", "exo", "sepexo"}
     /\ f.kind = "usert" => f.v = "t"
     /\ f.kind = "maxtime" => f.v = "MaxTime"
     /\ f.kind = "errtol" => f.v = "Err_Tolerance"
